@@ -109,7 +109,7 @@ pub fn configs(tier: Tier) -> Vec<Box<dyn Config>> {
         v.push(seeded_plan(Plan::Seq, tier, true, 1));
         if !sse2 {
             // two tag classes starting at the last bucket: in-place rehash with swaps across the wrap-around
-            v.push(closed_core(Plan::Adv(2), 11, tier, true));
+            v.push(closed_core(Plan::Adv(2), 9, tier, true));
             v.push(closed_core(Plan::Last, 9, tier, false));
             v.push(closed_core(Plan::Max, 12, tier, false));
             v.push(closed_core(Plan::Zero, 12, tier, true));
